@@ -25,13 +25,20 @@ func init() {
 			"gas limits are sampled around every intermediate gas value of the outer frame (thinned to a cap), not all 2^64 limits",
 		},
 		Cases: func(seed uint64, tier string) []Case {
-			n := 350
+			n := 240
 			if !quick(tier) {
 				n = 12000
 			}
 			var cs []Case
 			for i := 0; i < n; i++ {
 				cs = append(cs, Case{Kind: "sweep", Seed: h.Mix(seed, 0xC02, uint64(i))})
+			}
+			nt := 80
+			if !quick(tier) {
+				nt = 3000
+			}
+			for i := 0; i < nt; i++ {
+				cs = append(cs, Case{Kind: "tree", Seed: h.Mix(seed, 0xC02A, uint64(i))})
 			}
 			for f := h.Frontier; f <= h.Shanghai; f++ {
 				cs = append(cs, Case{Kind: "sstore", P: []int64{int64(f)}})
@@ -164,6 +171,24 @@ func runC02(c Case, tier string) (res CaseResult) {
 		res.Set("forks", dc.Env.Fork.String())
 		if c.Seed%61 == 0 {
 			res.Sample = map[string]interface{}{"case": c, "desc": dc.Desc, "limits_tried": len(limits), "first_limits": limits[:min(8, len(limits))]}
+		}
+	case "tree":
+		dc := genDualTree(c.Seed)
+		if fs, _, ok := dualStreams(&res, dc, false, "call tree"); ok {
+			for _, v := range gasArithmetic(fs.L) {
+				res.Fail(Key("arith", "tree"), "fork gas stream violates gas[i+1]=gas[i]-cost[i](+returned)", dc.Desc, v)
+			}
+			res.Shape("tree", shapeOf(fs.L))
+			res.Count("tree_cases", 1)
+			// a few tighter limits as well
+			r := h.NewRNG(c.Seed ^ 0x7e)
+			for k := 0; k < 4; k++ {
+				d2 := dc
+				d2.Tx.Gas = uint64(30000 + r.Intn(400000))
+				dualStreams(&res, d2, false, fmt.Sprintf("call tree, gas limit %d", d2.Tx.Gas))
+				res.Count("limit_runs", 1)
+			}
+			res.Evals = 5
 		}
 	case "sstore":
 		f := h.Fork(c.P[0])
